@@ -32,7 +32,8 @@ CLAIMS["C01"] = dict(
     cat="proof",
     text="Soundness-on-normal-return chain of the VPSC solvers under contract: Constraint::slack equals the separation's slack; the final scans of IncSolver::satisfy, "
          "Solver::satisfy, Solver::refine (tail fragments with loop contracts, any number of constraints) leave no constraint with slack < -1e-10 from EVERY state the "
-         "unverified merge/split machinery could leave; solve()/IncSolver::solve() preserve this and copy positions last; addConstraint adds an inactive constraint only. "
+         "unverified merge/split machinery could leave; solve()/IncSolver::solve() preserve this and copy positions last; addConstraint adds an inactive constraint only; "
+         "one iteration of IncSolver::satisfy's merge/split loop flags a constraint only on evidence from its callees. Both copies of the solver (libvpsc and libavoid/vpsc.cpp) are covered. "
          "'Flagged iff infeasible', finiteness and optimality are undecided residue.",
     note=BASE_TB + "Ghost-cell composition on paper; copyResult's all-n step is bounded (n<=4) plus an unbounded body fragment; scan jobs run with --no-pointer-check "
          "(elements other than the ghost one unconstrained); slack formula proved in scaled-integer mode (machine arithmetic treated as mathematical).",
@@ -43,7 +44,8 @@ CLAIMS["C20"] = dict(
     cat="proof",
     text="Value-determinism of the ordering kernels through which allocation addresses could reach results: CmpNodePos, compare_events, CompareConstraints, ANodeCmp are "
          "proved (all field values) to return a stated function of values and to evaluate no relational comparison of pointers to different objects (CBMC same-object check); "
-         "PseudoRandom::getNext is a function of the seed only. Whole-run bit-identity, symmetries, translation and permutation invariance are undecided residue.",
+         "PseudoRandom::getNext is a function of the seed only; transposition symmetry of the A* turn-pruning block and translation invariance of bends (relational, two calls of the real code). "
+         "Whole-run bit-identity, scene symmetries of whole routes and permutation invariance of VPSC are undecided residue.",
     note=BASE_TB + "CmpNodePos precondition 'distinct nodes have distinct variable ids' is by inspection of the callers. Address tie-breaks in CmpVertInf, CmpVisEdgeRotation's "
          "fallback and ActionInfo::operator< (ConnectionPinChange) are listed as not under obligation.",
     tech="CBMC code contracts on verbatim comparator slices; CBMC pointer-relation (same-object) check as the address-independence obligation; native two-run replay with heap perturbation",
